@@ -8,7 +8,7 @@ HOOKS = {
 ENGINES = [
     {"name": "ENV", "path": "/verif/amc/kit + /verif/amc/explore", "serves_properties": ["C08", "C11"],
      "kind_free_text": "deviation-bounded enumeration of environment answers on one thread: fault kind/position per handler call, veto positions, map iteration orders; every placement up to the bound is executed on the real code inside a synctest bubble"},
-    {"name": "SCHED", "path": "/verif/amc/shim/vsched + /verif/amc/explore + /verif/amc/instr", "serves_properties": ["C04"],
+    {"name": "SCHED", "path": "/verif/amc/shim/vsched + /verif/amc/explore + /verif/amc/instr", "serves_properties": ["C01", "C04", "C14"],
      "kind_free_text": "stateless model checking: source instrumenter (go build -overlay) turns every sync/atomic/go/channel operation into a schedule point of a cooperative scheduler running inside a testing/synctest bubble; DFS over choice lists with iterative deviation bounding, causal zero-cost continuation, conflict-based point reduction, replayable schedules"},
     {"name": "SEQ", "path": "/verif/amc/kit", "serves_properties": ["C01", "C02", "C03", "C05", "C06", "C07", "C14", "C19"],
      "kind_free_text": "sequential explicit-state search: BFS over the states of real machines (successor = fresh instance + replayed shortest path + one operation), enumerated schema spaces, reference predicates"},
@@ -28,7 +28,7 @@ LEVELS = {
         "technique": "explicit-state model checking on the real machine: schema enumeration x BFS over reachable states x all mutation kinds x handler configurations, view-agreement and tick-delta oracles",
         "text": "Every reachable state of every enumerated schema is expanded with every mutation kind; after each step all public views are compared with Time(nil), every traced transition's per-state tick delta is checked against the documented step table, and tracer/OnChange before/after times are chained. Bounded-exhaustive over small schemas, which is where tick arithmetic lives.",
         "design_ref": "DESIGN.md section 5 C01",
-        "note": "Trusted: kit.CheckViews parsers. Handler-bound variants run inside testing/synctest bubbles (fake time). Concurrent readers: see SCHED half.",
+        "note": "Trusted: kit.CheckViews parsers. Handler-bound variants run inside testing/synctest bubbles (fake time). Part 2 (SCHED): mutator(s) || reader of single-lock views under every schedule with <= 2 (quick) / 3 (thorough) deviations.",
     },
     "C04": {
         "engine": "SCHED",
